@@ -34,8 +34,8 @@ pub fn count_spaces_after_last_newline(s: &str, i: usize) -> usize {
         // Count the number of consecutive spaces in the substring
         after_newline.chars().take_while(|&c| c == ' ').count()
     } else {
-        // If no newline is found, return 0
-        0
+        // No newline: the position is on the first line of the text
+        s[..i].chars().take_while(|&c| c == ' ').count()
     }
 }
 
